@@ -102,6 +102,52 @@ def other_kind_type(rng, sch, ty, also=None):
     return rng.choice(c)
 
 
+_DEEP = {}
+
+
+def deep_types(sch):
+    """container types over a struct that holds a struct that holds something of variable width (an iterative skipper keeps a
+    frame per open container / struct: such shapes exercise its stack), incl. a struct in KEY position"""
+    key = id(sch.docs) if hasattr(sch, 'docs') else id(sch)
+    if key in _DEEP:
+        return _DEEP[key]
+    def var_width(t, seen=()):
+        t = sch.resolve(t)
+        if t[0] in ('string', 'binary', 'list', 'set', 'map'):
+            return True
+        if t[0] == 'ref' and t[1] not in seen and sch.types[t[1]]['kind'] == 'struct':
+            return any(var_width(f['ty'], seen + (t[1],)) for f in sch.types[t[1]]['fields'])
+        return False
+    out = []
+    for n, d in sch.types.items():
+        def reaches(t, target, seen):
+            t = sch.resolve(t)
+            if t[0] in ('list', 'set'):
+                return reaches(t[1], target, seen)
+            if t[0] == 'map':
+                return reaches(t[1], target, seen) or reaches(t[2], target, seen)
+            if t[0] != 'ref':
+                return False
+            if t[1] == target:
+                return True
+            if t[1] in seen:
+                return False
+            seen.add(t[1])
+            dd = sch.types[t[1]]
+            tys = [f['ty'] for f in dd.get('fields', [])] + [v['ty'] for v in dd.get('variants', [])] + ([dd['ty']] if dd['kind'] == 'typedef' else [])
+            return any(reaches(x, target, seen) for x in tys)
+        if d['kind'] != 'struct' or any(reaches(f['ty'], n, set()) for f in d['fields']):
+            continue
+        inner = [f for f in d['fields'] if sch.resolve(f['ty'])[0] == 'ref' and sch.types[sch.resolve(f['ty'])[1]]['kind'] == 'struct'
+                 and var_width(f['ty']) and f['req'] == 'required']
+        if inner:
+            out += [('map', ('i32',), ('ref', n)), ('map', ('ref', n), ('i32',)), ('list', ('ref', n)), ('map', ('string',), ('list', ('ref', n)))]
+        if len(out) >= 8:
+            break
+    _DEEP[key] = out
+    return out
+
+
 def evolve(rng, schR, tname, kinds=('add', 'add', 'add', 'remove', 'retype', 'reorder', 'req', 'variant', 'retype_variant'),
            n_edits=None, no_key=None, only=None):
     """-> (writer schema, list of edits).  Edits touch declarations reachable from tname."""
@@ -122,7 +168,7 @@ def evolve(rng, schR, tname, kinds=('add', 'add', 'add', 'remove', 'retype', 're
                 free = [i for i in NEW_IDS if i not in used]
                 if not free:
                     continue
-                t = rng.choice([t for t in NEW_FIELD_TYPES if usable(W, t)])
+                t = rng.choice([t for t in NEW_FIELD_TYPES + deep_types(schR) if usable(W, t)])
                 f = dict(id=rng.choice(free), name='added', req='optional' if t[0] == 'ref' else rng.choice(['required', 'optional', 'optional']), ty=t, lit=None,
                          default=None, const=None, doc=None, ann={}, idl_req='optional')
                 d['fields'].insert(rng.randrange(len(d['fields']) + 1), f)
